@@ -484,9 +484,9 @@ PROPS['C06'] = {
             'decoded id up with the pack boundary as limit, to undo the records at the position found and to merge the '
             'staged positions into the transaction index; DB.TransactionalUndo proved to undo every tid given, in order and '
             'once, inside its own storage transaction, and to release its storage instance on every exit of finish/abort.',
-    'note': 'FileStorage.undo/_txn_undo/_txn_undo_write (transaction walk, writing the records, blob copies), '
-            'DB.undo/TransactionalUndo resource manager, undoLog/undoInfo and MappingStorage are covered by the '
-            'bounded harness only. Assumes A-RESOLVER for the class merge.',
+    'note': 'The record loop of _txn_undo_write (all records processed, second chance, writing the records, blob '
+            'copies), _txn_find, DB.undo/undoMultiple (joining the manager), undoLog/undoInfo as a whole and '
+            'MappingStorage are covered by the bounded harness only. Assumes A-RESOLVER for the class merge.',
     'design_ref': 'DESIGN.md section 5 C06',
 }
 
